@@ -2,7 +2,7 @@
    option, unit, list, prod, sumbool map to OCaml's; N / positive / nat / string
    stay the Coq inductives (no Extract Constant, no native integers). *)
 From Coq Require Import Extraction ExtrOcamlBasic.
-From Mtbl Require Import gen.Consts gen.CrcTables model.Bytes model.Codec model.Order model.Crc model.Block model.Writer model.WriteLoop model.WriteLoopErrno model.Reader model.IterMem model.Verify model.OpenModel model.Tools model.ToolsMerge model.Compress model.Heap model.Merger model.Sorter model.Fileset model.FilesetPart model.Ledger model.Pool model.ResCore model.ResT1 model.ResSorter model.ResFileset model.Resources spec.Leb128 spec.Parse spec.TableCheck spec.Encode proofs.PoolLife proofs.PoolFairEx.
+From Mtbl Require Import gen.Consts gen.CrcTables model.Bytes model.Codec model.Order model.Crc model.Block model.Writer model.WriteLoop model.WriteLoopErrno model.Reader model.IterMem model.Verify model.OpenModel model.Tools model.ToolsMerge model.Compress model.Heap model.Merger model.Sorter model.Fileset model.Setfile model.FilesetPart model.Ledger model.Pool model.ResCore model.ResT1 model.ResSorter model.ResFileset model.Resources spec.Leb128 spec.Parse spec.TableCheck spec.Encode proofs.PoolLife proofs.PoolFairEx.
 Extraction Language OCaml.
 Set Extraction KeepSingleton.
 Extraction "mtbl_model.ml"
@@ -11,7 +11,7 @@ Extraction "mtbl_model.ml"
   bcmp sep lcp is_prefix crc32c_ref crc_slicing crc_sse42
   writer_session writer_init writer_add writer_finish writer_chunks writer_bytes clamp_block_size clamp_restart_interval metadata_read metadata_write
   write_chunks write_all error_met write_chunks_e strip_e
-  frun fs_init fstate_after fileset_partition parity_cb ledger footprint lrun rrun obs heap_live wf_history all_destroyedb oc_default rl_none
+  frun fs_init fstate_after setfile_names fileset_partition parity_cb ledger footprint lrun rrun obs heap_live wf_history all_destroyedb oc_default rl_none
   pool_init pstep pspurious enabled_set gett prog_wf prog_wf_weak wake_fairb sched_fairb terminalb
   sorter_init sorter_add sorter_iter sorter_next
   merger_iter_make merger_next merger_seek first_ge_from
